@@ -32,6 +32,7 @@ type wStep struct {
 	Together bool // source returns its last bytes together with the error
 	Chunk    int
 	URL      string
+	Preset   bool   // blob/stream: another Content-Type is already in the response headers when the helper is called
 	Format   string // string: called as String(code, Format) without values; Data holds what the format stands for
 }
 
@@ -44,6 +45,9 @@ func (s wStep) String() string {
 	case "string", "blob", "stream":
 		if s.Format != "" {
 			return fmt.Sprintf("c.String(%d,%q) without values", s.Code, s.Format)
+		}
+		if s.Preset {
+			return fmt.Sprintf("c.%s(%d,%q) with another Content-Type already set", s.Kind, s.Code, s.Data)
 		}
 		return fmt.Sprintf("c.%s(%d,%q)", s.Kind, s.Code, s.Data)
 	case "redirect":
@@ -90,9 +94,9 @@ func genWSteps(src sim.Source) []wStep {
 			}
 			out = append(out, st)
 		case k < 16:
-			out = append(out, wStep{Kind: "blob", Code: sim.Pick(src, "code", c14Codes[:5]), Data: data()})
+			out = append(out, wStep{Kind: "blob", Code: sim.Pick(src, "code", c14Codes[:5]), Data: data(), Preset: src.Intn("presetct", 3) == 0})
 		case k < 17:
-			out = append(out, wStep{Kind: "stream", Code: sim.Pick(src, "code", c14Codes[:5]), Data: data(), Together: sim.Bool(src, "together"), Chunk: src.Intn("chunk", 4)})
+			out = append(out, wStep{Kind: "stream", Code: sim.Pick(src, "code", c14Codes[:5]), Data: data(), Together: sim.Bool(src, "together"), Chunk: src.Intn("chunk", 4), Preset: src.Intn("presetct", 3) == 0})
 		case k < 18:
 			out = append(out, wStep{Kind: "redirect", Code: sim.Pick(src, "rcode", []int{299, 300, 301, 302, 307, 308, 309, 200}), URL: "http://sim.invalid/next"})
 		case k < 19 && i == n-1:
@@ -196,9 +200,15 @@ func runWHistory(w *world.World, steps []wStep, caps world.Caps, reqCT string, c
 					}
 				} else {
 					firstFinal := conn.Finals == 0
+					if st.Preset && firstFinal && before == 0 {
+						c.SetHeader("Content-Type", "text/x-preset") // e.g. left by a default-content-type middleware
+					}
 					err := c.Stream(st.Code, "application/x-sim", rd)
 					if fail == "" && firstFinal && before == 0 && conn.Explicit != st.Code {
 						fail = fmt.Sprintf("%s on a fresh writer forwarded status %d", name, conn.Explicit)
+					}
+					if ct := strings.Join(conn.H.Values("Content-Type"), " | "); fail == "" && firstFinal && before == 0 && ct != "application/x-sim" {
+						fail = fmt.Sprintf("%s on a fresh writer (preset content type: %v) sent Content-Type %q, it was given application/x-sim", name, st.Preset, ct)
 					}
 					_ = err
 				}
@@ -251,11 +261,14 @@ func runWHistory(w *world.World, steps []wStep, caps world.Caps, reqCT string, c
 				} else if st.Kind == "string" {
 					err = c.String(st.Code, "%s", st.Data)
 				} else {
+					if st.Preset && fresh {
+						c.SetHeader("Content-Type", "text/x-preset")
+					}
 					err = c.Blob(st.Code, "application/x-sim", []byte(st.Data))
 				}
 				if fail == "" && fresh {
 					wantCT := "application/x-sim"
-					gotCT := conn.H.Get("Content-Type")
+					gotCT := strings.Join(conn.H.Values("Content-Type"), " | ")
 					if st.Kind == "string" {
 						// String is not given a content type: any text/plain type is accepted
 						wantCT = "text/plain"
